@@ -271,6 +271,14 @@ NEEDS = {
     "C18-8A": "log merge fast path `max(self)+max(other) <= num_reserved` computed in uint8/uint16: a saturated cell + a small cell wraps",
     "C19-8A": "worker dies with a POSITIVE exit status (os._exit(1)): the monitor now reacts to negative codes only",
     "C20-8A": "count-min files carry cms_type in the zip comment; a cut inside the trailing comment (last 22-24 bytes) still loads",
+    "C01-8B": "CountMinLinear.update(dict) calls the jitted kernel directly, skipping add()'s cap: a dict value >= 2^32 is truncated to uint32 (estimate v mod 2^32)",
+    "C03-8B": "heavy-hitters merge of a cell holding different keys computes int32(self) - int32(other): a count >= 2^31 turns negative, the wrong key takes the cell",
+    "C05-8B": "linear add: clamp / conservative path only for value > 1, everything else takes a hard-coded +1 fast path: multiplicity exactly 0 adds one",
+    "C09-8B": "log merges hand prange blocks of 4096 columns, block count width // 4096: the last width % 4096 columns of a table wider than 4096 are never merged",
+    "C10-8B": "log save() stores the float base in the integer args array (promoted to float64): max_count above 2^53 comes back changed, merge with the original refused",
+    "C12-8B": "HeavyHitters._add_ngram clamps ngram to max_key_len before counting windows: ngram > max_key_len on a key longer than max_key_len",
+    "C13-8B": "vectorised generate_candidate_set de-duplicates on the zero-padded key bytes only: stored keys that differ in trailing NULs collapse into one",
+    "C16-8B": "HeavyHitters.merge into a still-empty sketch rebinds lhh / lhh_count / key_lens to copies: a shared-memory owner or view silently leaves its block",
     "C19-7A": "the dying worker is worker 00 (`if failed_worker:` is falsy for index 0)",
 }
 
